@@ -188,7 +188,7 @@ def r2_siblings(chk, F):
     chk.ob(rule, "compute_gregorian~maybe_from_gregorian", "same-reference-year-constant", len(refs) == 1, "constant provenance", detail=sorted(refs))
     chk.ob(rule, "compute_gregorian~maybe_from_gregorian", "same-cumulative-day-tables", a["tables"] == b["tables"] and len(a["tables"]) == 2,
            "constant provenance + value", detail=None if a["tables"] == b["tables"] else {"decompose": sorted(x[0] for x in a["tables"]), "construct": sorted(x[0] for x in b["tables"])})
-    chk.ob(rule, "compute_gregorian~maybe_from_gregorian", "leap-predicate-used-in-both", a["leap_calls"] >= 3 and b["leap_calls"] >= 3, "call sites",
+    chk.ob(rule, "compute_gregorian~maybe_from_gregorian", "leap-predicate-used-in-both", a["leap_calls"] >= 1 and b["leap_calls"] >= 1, "call sites in the local cone (both directions use is_leap_year, not a private copy)",
            detail={"decompose": a["leap_calls"], "construct": b["leap_calls"]})
     # the offset is added in compute_gregorian and subtracted in maybe_from_gregorian: run both with the offset uninterpreted
     eng, D = ctx(F)
